@@ -16,7 +16,7 @@ def atomB (P F : List Char → R E) (ctx : Ctx) (s1 : List Char) : R E :=
   | .ok r t => .ok r t
   | .oof => .oof
   | .fail =>
-    match lexDouble s1 with
+    match parseConst s1 with
     | some (r, t) => .ok r t
     | none =>
       match F s1 with
@@ -321,7 +321,7 @@ theorem atomB_mono {P P' F F' : List Char → R E} (ctx : Ctx)
   | ok r t => rw [hps] at hp; rw [hp (by simp)]
   | fail =>
     rw [hps] at hp h; rw [hp (by simp)]
-    cases hl : lexDouble s with
+    cases hl : parseConst s with
     | some v => rfl
     | none =>
       rw [hl] at h
